@@ -114,7 +114,7 @@ theorem netNames_elab (d : ADesign) (hw : WFParts d) : NetNames (elabLibs d) := 
 theorem instWF_elab (d : ADesign) (L D : Nat) (i : AInst) (hn : i.name.okB = true) (h : i.okB d L D = true) :
     InstWF (elabLibs d) L D i.elab := by
   simp only [AInst.okB, Bool.and_eq_true, List.all_eq_true] at h
-  obtain ⟨⟨hb, hsp⟩, hps⟩ := h
+  obtain ⟨⟨⟨hb, hsp⟩, hps⟩, _⟩ := h
   refine ⟨namedOK_elab _ i.name hn (identOf_AInst_elab i) (nameOf_AInst_elab i), ?_, ?_⟩
   · cases hc : cellAt d i.li i.di with
     | none => rw [hc] at hsp; cases hsp
